@@ -14,6 +14,7 @@ TRUSTED = [
     'submission order, for every completion order" — the executor itself, process start-up and real scheduling are not modelled',
     'tools/gen/gen_setsites.py: a syntactic (not type-based) detector of order-sensitive consumption of sets over the python ast, with a reviewed list of benign sites',
     'schedule / seed / history exploration through the real CLI in subprocesses',
+    'tools/gen/gen_cli_src.py: fail-closed python-ast -> Gallina translator of lib/cli.py (Checker.tag, check_regular_file, copy_options, check_deb, check_file, check_file_s, check_all, parse_jobs, the -j normalisation of main) and its vocabulary Model/CliPy.v (io = lines written + Ret/Raise, posixpath.join, options record); the real checker, subprocesses, TemporaryDirectory, os.walk, islink/isfile, the executor, tags.get_tag and Tag.format are oracle arguments',
 ]
 ASSUME = ['the current date does not cross a tag threshold during the run', 'files are not modified during the run']
 
